@@ -6,7 +6,7 @@ From Exmex.Spec Require Import RefSem.
 From Exmex.Proofs Require Import DeepSem DeepSubs C11Main DeepOps ConvertCompose FlatCalc.
 From Coq Require Import Reals.
 From Exmex.Gen Require Import Tables.
-From Exmex.Proofs Require Import NormalForm RealCarrier CalcSem.
+From Exmex.Proofs Require Import NormalForm RealCarrier CalcSem CalcGen.
 Open Scope nat_scope.
 
 (* 1. Binary application by name on DEEP expressions is a homomorphism: for every table, every binary operator name and
@@ -130,6 +130,48 @@ Proof.
   split; [intros H; exact (d_mul_sem a b r Wa Wb H)|]. split; [intros H; exact (d_div_sem a b r Wa Wb H)|].
   intros H; exact (d_pow_sem a b r Wa Wb H).
 Qed.
+(* 6. The same for EVERY data type and table: the table has + - * / ^ as binary operators; modulo R, zero is neutral for +,
+   one is neutral and zero absorbing for *, 0/x = 0, x/1 = x, x^0 = 1, x^1 = x, and the equality test of the data type
+   answers true only on R-related values.  (For floats these laws hold on finite values, which is the side condition of
+   the property; for exact data types they hold outright.) *)
+Theorem C10_shortcuts_are_sound_for_every_data_type :
+  forall (D : Type) (C : carrier D) (DC : dcarrier D) (tb : optable) (R : D -> D -> Prop),
+  (forall a, R a a) -> (forall a b, R a b -> R b a) -> (forall a b c, R a b -> R b c -> R a c) ->
+  (forall k a a' b b', R a a' -> R b b' -> R (binf C k a b) (binf C k a' b')) ->
+  (forall k a a', R a a' -> R (unf C k a) (unf C k a')) ->
+  (forall k, comm_of tb k = true -> forall a b c, R (binf C k (binf C k a b) c) (binf C k a (binf C k b c))) ->
+  forall kadd ksub kmul kdiv kpow : nat,
+  find_op s_plus tb 0 = Some kadd -> is_bin tb kadd = true -> find_op s_minus tb 0 = Some ksub -> is_bin tb ksub = true ->
+  find_op s_mul tb 0 = Some kmul -> is_bin tb kmul = true -> find_op s_div tb 0 = Some kdiv -> is_bin tb kdiv = true ->
+  find_op s_pow tb 0 = Some kpow -> is_bin tb kpow = true ->
+  (forall a b, dc_eqb DC a b = true -> R a b) ->
+  (forall a, R (binf C kadd (dc_zero DC) a) a) -> (forall a, R (binf C kadd a (dc_zero DC)) a) ->
+  (forall a, R (binf C kmul (dc_one DC) a) a) -> (forall a, R (binf C kmul a (dc_one DC)) a) ->
+  (forall a, R (binf C kmul (dc_zero DC) a) (dc_zero DC)) -> (forall a, R (binf C kmul a (dc_zero DC)) (dc_zero DC)) ->
+  (forall a, R (binf C kdiv (dc_zero DC) a) (dc_zero DC)) -> (forall a, R (binf C kdiv a (dc_one DC)) a) ->
+  (forall a, R (binf C kpow a (dc_zero DC)) (dc_one DC)) -> (forall a, R (binf C kpow a (dc_one DC)) a) ->
+  forall a b r : deepex D, Wg tb a -> Wg tb b ->
+  (d_add C DC tb a b = Ok r ->
+     Wg tb r /\ dvars r = sort_strs (dvars a ++ dvars b) /\ forall rho, R (dden C (nlook rho) r) (binf C kadd (dden C (nlook rho) a) (dden C (nlook rho) b))) /\
+  (d_sub C tb a b = Ok r ->
+     Wg tb r /\ dvars r = sort_strs (dvars a ++ dvars b) /\ forall rho, R (dden C (nlook rho) r) (binf C ksub (dden C (nlook rho) a) (dden C (nlook rho) b))) /\
+  (d_mul C DC tb a b = Ok r ->
+     Wg tb r /\ dvars r = sort_strs (dvars a ++ dvars b) /\ forall rho, R (dden C (nlook rho) r) (binf C kmul (dden C (nlook rho) a) (dden C (nlook rho) b))) /\
+  (d_div C DC tb a b = Ok r ->
+     Wg tb r /\ dvars r = sort_strs (dvars a ++ dvars b) /\ forall rho, R (dden C (nlook rho) r) (binf C kdiv (dden C (nlook rho) a) (dden C (nlook rho) b))) /\
+  (d_pow C DC tb a b = Ok r ->
+     Wg tb r /\ dvars r = sort_strs (dvars a ++ dvars b) /\
+     ((forall rho, R (dden C (nlook rho) r) (binf C kpow (dden C (nlook rho) a) (dden C (nlook rho) b))) \/
+      ((forall rho, R (dden C (nlook rho) a) (dc_zero DC)) /\ (forall rho, dden C (nlook rho) r = dc_zero DC)))).
+Proof.
+  intros D C DC tb R Hr Hs Ht Hb Hu Ha kadd ksub kmul kdiv kpow fa ba fs bs fm bm fd bd fp bp He a0l a0r m1l m1r m0l m0r d0l d1r p0r p1r a b r Wa Wb.
+  split; [intros H; exact (d_add_gen C DC tb R Hr Hs Ht Hb Hu Ha kadd fa ba He a0l a0r a b r Wa Wb H)|].
+  split; [intros H; exact (d_sub_gen C tb R Hr Hs Ht Hb Hu Ha ksub fs bs a b r Wa Wb H)|].
+  split; [intros H; exact (d_mul_gen C DC tb R Hr Hs Ht Hb Hu Ha kmul fm bm He m1l m1r m0l m0r a b r Wa Wb H)|].
+  split; [intros H; exact (d_div_gen C DC tb R Hr Hs Ht Hb Hu Ha kdiv fd bd He d0l d1r a b r Wa Wb H)|].
+  intros H; exact (d_pow_gen C DC tb R Hr Hs Ht Hb Hu Ha kpow fp bp He p0r p1r a b r Wa Wb H).
+Qed.
+
 (* DeepEx::is_num answers true only for a literal level with that value (the shortcut tests), on every data type *)
 Theorem C10_is_num_is_sound_on_normal_forms :
   forall (D : Type) (C : carrier D) (DC : dcarrier D) (e : deepex D) (num : D), nf e -> is_num C DC e num = true ->
@@ -143,3 +185,4 @@ Print Assumptions C10_flat_unary_application_is_a_homomorphism.
 Print Assumptions C10_unknown_binary_name_is_error_partial.
 Print Assumptions C10_shortcuts_are_sound_over_the_reals.
 Print Assumptions C10_is_num_is_sound_on_normal_forms.
+Print Assumptions C10_shortcuts_are_sound_for_every_data_type.
